@@ -26,6 +26,9 @@ ObjCases == {[k |-> "objs", srv |-> s, via |-> v, objs |-> l] : s \in Srvs, v \i
 Outs == {"ok", "404", "403", "500", "403w", "404w"}
 MgCases == {[k |-> "mgst", srv |-> s, items |-> it] : s \in Srvs,
               it \in UNION {[1..n -> [href : {"o1", "o2", "o3"}, out : Outs]] : n \in 1..(IF Big THEN 3 ELSE 2)}}
+\* a multiget far beyond the bounded instances in length only: 150 hrefs, a few of them failing
+MgMany == {[k |-> "mgst", srv |-> s, items |-> [i \in 1..150 |-> [href |-> "o" \o ToString(1000 + i),
+                                                                out |-> IF i \in {1, 77, 150} THEN "404" ELSE IF i = 101 THEN "403w" ELSE "ok"]]] : s \in Srvs}
 MgValid(c) == \A i, j \in 1..Len(c.items) : i # j => c.items[i].href # c.items[j].href
 \* PUT: the backend receives the caller's object and its answer (path, tag, time) is handed back
 PutCases == {[k |-> "put", srv |-> s, path |-> p, data |-> d, rpath |-> r, etag |-> e, mtime |-> m] :
@@ -36,7 +39,7 @@ Layouts == {"plain", "split", "splitrev", "extra", "opt404", "opt404first", "abs
 DocCases == {[k |-> "doc", srv |-> s, call |-> "objs", layout |-> ly, objs |-> l, cols |-> << >>] : s \in Srvs, ly \in Layouts, l \in {x \in ObjLists : Len(x) = 1 \/ Big}}
             \cup {[k |-> "doc", srv |-> s, call |-> "cols", layout |-> ly, objs |-> << >>, cols |-> l] : s \in Srvs, ly \in Layouts, l \in {x \in ColLists : Len(x) >= 1}}
             \cup {[k |-> "doc", srv |-> "card", call |-> "sync", layout |-> ly, objs |-> l, cols |-> << >>] : ly \in Layouts, l \in {x \in ObjLists : Len(x) = 2}}
-All == ColCases \cup ObjCases \cup {c \in MgCases : MgValid(c)} \cup PutCases \cup DocCases
+All == ColCases \cup ObjCases \cup {c \in MgCases : MgValid(c)} \cup MgMany \cup PutCases \cup DocCases
 ASSUME ndJsonSerialize(IOEnv.OUT \o "/c10.ndjson", SetToSeq(All))
 ASSUME PrintT(<<"COUNTS", Cardinality(All), Cardinality(ColCases), Cardinality(ObjCases), Cardinality(MgCases), Cardinality(PutCases), Cardinality(DocCases)>>)
 VARIABLE dummy
